@@ -5,6 +5,9 @@
 use std::{fmt, io};
 
 use crate::encode::{self, Style};
+#[cfg(log4rs_verif)]
+use crate::verif_hooks::Lazy;
+#[cfg(not(log4rs_verif))]
 use once_cell::sync::Lazy;
 
 static COLOR_MODE: Lazy<ColorMode> = Lazy::new(|| {
